@@ -85,7 +85,7 @@ def gen(ctx, path, path_ok):
     rnd = random.Random(ctx.seed)
     c = Cmds(path)
     cok = Cmds(path_ok)
-    nr, nl = (30, 20) if ctx.quick else (500, 200)
+    nr, nl = (30, 20) if ctx.quick else (300, 120)
     for (a, b) in EDGES:
         if (a, b) in OK_CYL or "hsluv" in (a, b):
             n1, n2 = (10, 8) if ctx.quick else (120, 60)
@@ -126,7 +126,7 @@ def gen(ctx, path, path_ok):
 def gen_std(ctx, path):
     rnd = random.Random(ctx.seed + 5)
     c = Cmds(path)
-    nr, nl = (30, 20) if ctx.quick else (400, 150)
+    nr, nl = (30, 20) if ctx.quick else (250, 100)
     for (a, b) in STD_EDGES:
         if a[:3] in ("hsv", "hsl") and ctx.quick:
             nr, nl = 12, 8
@@ -175,7 +175,8 @@ def run(ctx):
     log("C02: %d commands, %d on the Okhsv / Okhsl edges" % (n, nok))
     cmds_std = ctx.p("c02std.cmds")
     nstd = gen_std(ctx, cmds_std)
-    for (b, cf, tag, chunk) in [("conv64", cmds, "c02.conv64", max(120, n // 13 + 1)), ("conv32", cmds, "c02.conv32", max(120, n // 13 + 1)),
+    nch = 13 if ctx.quick else 16
+    for (b, cf, tag, chunk) in [("conv64", cmds, "c02.conv64", max(120, n // nch + 1)), ("conv32", cmds, "c02.conv32", max(120, n // nch + 1)),
                                 ("convstd64", cmds_std, "c02std.conv64", max(60, nstd // 6 + 1)), ("convstd32", cmds_std, "c02std.conv32", max(60, nstd // 6 + 1)),
                                 ("conv64", cmds_ok, "c02ok.conv64", max(6, nok // 32 + 1)), ("conv32", cmds_ok, "c02ok.conv32", max(6, nok // 32 + 1))]:
         tp = ctx.p(tag + ".ndjson")
